@@ -1546,7 +1546,7 @@ func (it *Interp) next(iv *IterV, x *ssa.Next) Value {
 		return TupleV{false, it.zeroOrNil(tt.At(1).Type()), it.zeroOrNil(tt.At(2).Type())}
 	}
 	k := 0
-	if !it.cfg.NoMapPerm && len(live) > 1 && !it.isHarnessFn(x.Parent()) {
+	if !it.cfg.NoMapPerm && len(live) > 1 && !it.isModelFn(x.Parent()) {
 		// Go's iteration order is unspecified: explore every order - for go-plugin's own loops
 		k = it.choose(len(live), "maporder")
 	}
